@@ -1307,6 +1307,7 @@ def correspond(ctx):
     from harness import bodies, classdef
     bodies.corr_class_bodies(ctx, corr)
     classdef.corr_class_defs(ctx, corr)
+    classdef.corr_corpus_units(ctx, corr)          # ... and on the inputs of the test-suite
     corr_friends(ctx, corr)
     corr_op_members(ctx, corr)
     corr_conv_ops(ctx, corr)
